@@ -301,6 +301,7 @@ class Inliner:
         self._cand: dict[int, object] = {}
         self._done: set[int] = set()
         self._active: set[int] = set()
+        self._pending_globals: dict[int, list[str]] = {}
         self._counter = 0
         self._introduced: dict[str, set[str]] = {}
         self.into: dict[str, set[str]] = {}  # function key -> keys of the helpers whose bodies were expanded into it
@@ -347,8 +348,10 @@ class Inliner:
         for x in _own(body):
             if isinstance(x, ast.stmt):
                 count += 1
-            if isinstance(x, (ast.Global, ast.Nonlocal, ast.FunctionDef, ast.AsyncFunctionDef, ast.ClassDef, ast.Await)):
+            if isinstance(x, (ast.Nonlocal, ast.FunctionDef, ast.AsyncFunctionDef, ast.ClassDef, ast.Await)):
                 return None
+            if isinstance(x, ast.Global) and not any(x is st for st in body):
+                return None  # only declarations at the top level of the helper's body are carried over to the caller
             if isinstance(x, (ast.Yield, ast.YieldFrom)):
                 gen = True
         if count > MAX_HELPER_STMTS or not body:
@@ -445,6 +448,14 @@ class Inliner:
                 f.node.body = self._block(f, f.node.body, depth)
                 # expression-form calls that are left anywhere in the body (conditions, arguments, comprehensions, lambdas)
                 self._expr_sites(f, f.node, depth)
+                names = self._pending_globals.pop(id(f), None)
+                if names:
+                    decl = ast.Global(names=list(dict.fromkeys(names)))
+                    ast.copy_location(decl, f.node.body[0])
+                    decl._parent = f.node
+                    at = 1 if (isinstance(f.node.body[0], ast.Expr) and isinstance(f.node.body[0].value, ast.Constant)
+                               and isinstance(f.node.body[0].value.value, str)) else 0
+                    f.node.body.insert(at, decl)
         finally:
             self._active.discard(id(f))
             self._done.add(id(f))
@@ -688,6 +699,22 @@ class Inliner:
         if id(g) in self._active:
             raise _Skip("recursive")
         body = clone(_strip_doc(g.node.body))
+        # `global X` of the helper becomes a declaration of the caller (same module, and the caller has no local X)
+        declared = [n for st in body if isinstance(st, ast.Global) for n in st.names]
+        if declared:
+            if g.module is not f.module or not isinstance(f.node, (ast.FunctionDef, ast.AsyncFunctionDef)) or f.parent is not None:
+                raise _Skip("global declaration cannot be carried over")
+            have = {n for st in ast.walk(f.node) if isinstance(st, ast.Global) for n in st.names}
+            mine = {n.id for n in self._own_nodes(f) if isinstance(n, ast.Name)} | {x.arg for x in f.node.args.posonlyargs + f.node.args.args + f.node.args.kwonlyargs}
+            for name in declared:
+                if name not in have and name in mine:
+                    raise _Skip(f"global {name} is a local name of the caller")
+            body = [st for st in body if not isinstance(st, ast.Global)]
+            have |= set(self._pending_globals.get(id(f), ()))
+            missing = [n for n in dict.fromkeys(declared) if n not in have]
+            if missing:
+                # declared at the top of the caller once its body has been rewritten (see expand)
+                self._pending_globals.setdefault(id(f), []).extend(missing)
         nodes = list(_own(body))
         if any(isinstance(n, ast.Call) and getattr(n, "_inl", None) is g for n in nodes):
             raise _Skip("recursive")
@@ -704,7 +731,8 @@ class Inliner:
                 local.add(n.arg)
             elif isinstance(n, ast.ExceptHandler) and n.name:
                 local.add(n.name)
-        caller_locals = self._locals_of(f)
+        local -= set(declared)
+        caller_locals = self._locals_of(f) - set(declared)
         for n in nodes:
             if isinstance(n, ast.Name) and isinstance(n.ctx, ast.Load) and n.id not in local and n.id not in params:
                 # free name of the helper: must mean the same thing at the call site
